@@ -58,6 +58,9 @@ class LibMixin:
 
     def bi_int(self, pos, kw, st, exc, e):
         v = pos[0]
+        if v.ty.kind == "opt":
+            self.require_noexc(st, smt.Not(v.ts[0]), "TypeError", "int_of_none", exc)
+            v = opt_inner(v)
         if v.ty.kind in ("int", "bool"):
             return self.coerce(v, TINT, st)
         if v.ty.kind in ("str", "tstr"):
@@ -65,7 +68,9 @@ class LibMixin:
             # int() of a non-empty ASCII digit string; anything else may raise ValueError
             digits = T('(str.in_re %s (re.+ (re.range "0" "9")))' % s.s, BOOL)
             self.require_noexc(st, digits, "ValueError", "int_of_str", exc)
-            return mk_int(smt.app("str.to_int", INT, s))
+            r = smt.app("str.to_int", INT, s)
+            st.assume(smt.Ge(r, smt.Int(0)))   # value of a digit string is non-negative (library fact)
+            return mk_int(r)
         raise Unsupported("int() of %r" % (v.ty,))
 
     def bi_tuple(self, pos, kw, st, exc, e):
@@ -213,7 +218,12 @@ class LibMixin:
         name = "strip" if left and right else "lstrip" if left else "rstrip"
         key = (name, s.s)
         if key in self.strip_cache:
-            return self.strip_cache[key]
+            r, facts = self.strip_cache[key]
+            for f in facts:
+                if f not in st.pc:
+                    st.assume(f)
+            return r
+        mark = len(st.pc)
         r = self.uf("str_" + name, [s], STR)
         n = smt.Len(s)
         a = self.ctx.fresh("k_l", INT) if left else smt.Int(0)
@@ -229,7 +239,7 @@ class LibMixin:
         if left and right:
             # all-whitespace strings strip to "" with a == b anywhere; fix a == b == ... is implied by r == ""
             pass
-        self.strip_cache[key] = r
+        self.strip_cache[key] = (r, list(st.pc[mark:]))
         return r
 
     def str_method(self, recv, name, pos, kw, st, exc):
